@@ -1,0 +1,1 @@
+//! verif-hooks: dist area (read-only accessors; see mod.rs)
